@@ -56,6 +56,12 @@ impl<'a, K: HKey> Ctx<'a, K> {
     fn content(&mut self) -> String {
         let base: &[&[u8]] = &[b"", b"X", b"XY", b"hello world", b"XYXYXYXY"];
         match self.rng.below(20) {
+            // one large single write call / the same bytes in small pieces (chunk independence, C18)
+            3 if self.prop == "C18" => {
+                let seed = self.rng.below(2);
+                let len = *self.rng.pick(&[131_071u64, 131_072, 131_073, 262_144]);
+                if self.rng.chance(1, 2) { format!("~{seed}:{len}") } else { format!("~{seed}:{len},=-") }
+            }
             0 => format!("~{}:{}", self.rng.below(3), *self.rng.pick(&[8191u64, 8192, 8193, 20000])),
             1 => format!("~{}:{},={}", self.rng.below(3), 5000, hx(b"tail")),
             2 => "_".to_string(),
@@ -260,9 +266,20 @@ fn history<K: HKey>(s: &mut Sess, rng: &mut Rng, w: &Weights, prop: &'static str
     if !r.starts_with("ok") { c.fail(format!("first open failed: {r}")); return; }
     c.observe(true);
     let len = c.rng.range(w.len_lo, w.len_hi);
-    for _ in 0..len {
+    for i in 0..len {
         c.step(w);
         c.observe(true);
+        // once per C13 history in a while: a transaction abandoned after a LARGE amount of data
+        if prop == "C13" && i == 1 && c.rng.chance(1, 12) {
+            let kb = c.key();
+            let id = c.next_tx; c.next_tx += 1;
+            c.expect(&format!("begin {id} {}", hx(&kb)), "ok");
+            let big = *c.rng.pick(&[9u64 << 20, 33 << 20, 40 << 20]);
+            c.expect(&format!("writezeros {id} {big}"), "ok");
+            c.expect(&format!("abort {id}"), "ok");
+            c.s.out.count("abort.large");
+            c.observe(true);
+        }
     }
     // finish: close cleanly, reopen, everything still there (C02 / C13 "also after reopening")
     for (id, _, _) in std::mem::take(&mut c.open_txs) { c.expect(&format!("abort {id}"), "ok"); }
